@@ -126,6 +126,8 @@ type SkelOpts struct {
 	TypeErrIsOwn bool                     // a skeleton that does not type-check is this property's violation (C01) rather than "undecided"
 	Notes        []string                 // interpreter note rules that belong to the property (G-RENDER, H-PANIC)
 	KeepOb       func(o skel.Ob, e tmpl.Env) bool
+	Formatters   []string // formatter values to derive with (default: only "")
+	NoExpand     bool     // only the generator-side derivation is needed
 }
 
 func hasPrefix(s string, ps []string) bool {
@@ -138,6 +140,7 @@ func hasPrefix(s string, ps []string) bool {
 }
 
 type skelOut struct {
+	skip    bool
 	derived []*tmpl.Derived
 	env    tmpl.Env
 	sk     *tmpl.Skeleton
@@ -197,6 +200,21 @@ func (c *Ctx) RunSkeletons(opt SkelOpts) {
 			dvs, err := tmpl.Derive(c.Prog, model, "")
 			if err != nil {
 				outs[i] = []skelOut{{env: envs[i], err: err}}
+				return
+			}
+			for _, f := range opt.Formatters {
+				if f == "" {
+					continue
+				}
+				more, err := tmpl.Derive(c.Prog, model, f)
+				if err != nil {
+					outs[i] = []skelOut{{env: envs[i], err: err}}
+					return
+				}
+				dvs = append(dvs, more...)
+			}
+			if opt.NoExpand {
+				outs[i] = []skelOut{{env: envs[i], derived: dvs, skip: true}}
 				return
 			}
 			var data *interp.Struct
@@ -259,14 +277,14 @@ func (c *Ctx) RunSkeletons(opt SkelOpts) {
 			walk(n.List)
 			walk(n.ElseList)
 		case *parse.TextNode, *parse.ActionNode:
-			if !all[n] && opt.Env == nil {
+			if !all[n] && opt.Env == nil && !opt.NoExpand {
 				unreached++
 				run.Undecided("S-COVER", fmt.Sprintf("unreached:%s", strings.TrimSpace(truncate(n.String(), 40))), src.Line(int(n.Position())), "no environment of the family reaches this template node: its output is not analysed")
 			}
 		}
 	}
 	walk(src.Tree.Root)
-	if opt.Env == nil {
+	if opt.Env == nil && !opt.NoExpand {
 		run.Check("S-COVER", "all-template-nodes-reached", src.Line(0), unreached == 0, "")
 	}
 	mockPos := "pkg/moq/moq.go"
@@ -296,6 +314,9 @@ func (c *Ctx) RunSkeletons(opt SkelOpts) {
 						run.Fail(ob.Rule, ob.Key, mockPos, core.Violation{Msg: ob.Msg, Env: envs + " path{" + dv.Choices + "}"})
 					}
 				}
+			}
+			if o.skip {
+				continue
 			}
 			if o.err != nil {
 				pos, msg := src.Line(0), o.err.Error()
